@@ -951,6 +951,9 @@ SCAN_SAMPLES = [
     ('"model.h5"', '"model.h5"', "quoted-with-dot"),
     ('"a.b". More prose.', '"a.b"', "quoted-with-dot-then-prose"),
     ("'v1.2.3'. Tail", "'v1.2.3'", "single-quoted-with-dots"),
+    # the other quotation mark is content: only the mark that opened the string closes it
+    ('"O\'Reilly Media, Inc.". Tail.', '"O\'Reilly Media, Inc."', "apostrophe-inside-double-quotes"),
+    ("'say \"a.b\" twice'. Tail.", "'say \"a.b\" twice'", "double-quotes-inside-single-quotes"),
     ("(1, 2). Tail.", "(1, 2)", "bracketed-then-prose"),
     ("[1.5, 2]. Tail.", "[1.5, 2]", "bracketed-decimal-then-prose"),
     ("(np.empty(0), np.empty(0))", "(np.empty(0), np.empty(0))", "nested-brackets-at-end"),
